@@ -316,6 +316,47 @@ func c09(c *core.Check) {
 			}
 		}
 	}
+	c09Spans(c)
+}
+
+// c09Spans: a table cell spans at least one column (HTML 5: colspan is clamped to >= 1), while rowspan may be 0.
+func c09Spans(c *core.Check) {
+	p := c.Prog
+	r := c.Rule("R5", "NewTableCellBox reads colspan with the lower bound 1 and rowspan with the lower bound 0 (HTML 5): a cell that spans no column would share its grid slot with the next cell", 2)
+	fn := p.Fn("html/boxes", "NewTableCellBox")
+	if fn == nil {
+		r.Anchor("html/boxes.NewTableCellBox")
+		return
+	}
+	want := map[string]int64{"Colspan": 1, "Rowspan": 0}
+	seen := map[string]bool{}
+	core.Instrs(fn, func(in ssa.Instruction) {
+		st, ok := in.(*ssa.Store)
+		if !ok {
+			return
+		}
+		fa, ok := st.Addr.(*ssa.FieldAddr)
+		if !ok {
+			return
+		}
+		w, isSpan := want[core.FieldName(fa)]
+		if !isSpan {
+			return
+		}
+		seen[core.FieldName(fa)] = true
+		got := int64(-99)
+		if call, ok := st.Val.(*ssa.Call); ok && len(call.Call.Args) == 2 {
+			if k, ok := core.ConstInt(call.Call.Args[1]); ok {
+				got = k
+			}
+		}
+		r.Cond(got == w, "NewTableCellBox | "+core.FieldName(fa)+" lower bound", p.Pos(st.Pos()), fmt.Sprintf("minimum %d", got), fmt.Sprintf("the attribute is read with the lower bound %d, HTML 5 gives %d", got, w))
+	})
+	for f := range want {
+		if !seen[f] {
+			r.Fail("NewTableCellBox | "+f+" lower bound", p.Pos(fn.Pos()), "the field is not assigned")
+		}
+	}
 }
 
 // c09ClassInterfaces extracts from BoxType.IsInstance the interface each class constant stands for.
@@ -545,6 +586,8 @@ func c11(c *core.Check) {
 
 	r3 := c.Rule("R3", "sibling symmetry in inline layout code: two assignments of one block that differ by a side (Top/Bottom, Left/Right) on the left and have the same shape on the right mirror every side name of that axis", 1)
 	sideSymmetryRule(c, r3, "html/layout", map[string]bool{"inline.go": true, "leader.go": true}, 1)
+	r4 := c.Rule("R4", "box-edge sums of the inline layout code mention margin, padding and border with the same sides", 5)
+	sideSumRule(c, r4, "html/layout", map[string]bool{"inline.go": true, "leader.go": true}, 5)
 
 }
 
@@ -662,4 +705,7 @@ func c12(c *core.Check) {
 
 	r2 := c.Rule("R2", "tree.pageTypeMatch divides and takes the remainder by the :nth() step only where it is proven non-zero", 2)
 	divisionRule(c, r2, func(fn *ssa.Function) bool { return fn.Name() == "pageTypeMatch" && inPkgs("html/tree")(fn) })
+
+	r3 := c.Rule("R3", "box-edge sums of the fragmentation code (the space kept at the bottom of a page for paddings and borders, page margins) mention margin, padding and border with the same sides", 8)
+	sideSumRule(c, r3, "html/layout", map[string]bool{"blocks.go": true, "pages.go": true, "columns.go": true}, 8)
 }
